@@ -51,6 +51,11 @@ StepOK(inst, pre, st) ==
   /\ ToSetU(st.chosen) = ToSetU(pre) /\ st.i = Len(pre)     \* the selection shown is the selection made
   /\ pre # <<>> => \A j \in Locs(inst) : st.dist[j + 1] = Nearest(inst, ToSetU(pre), j)
 
+\* C08 while a finished row is stepped on (padding): selection and bookkeeping stay what the quota-sized selection implies
+PadStateOK(inst, pre, st) ==
+  /\ st.done /\ ToSetU(st.chosen) = ToSetU(pre)
+  /\ \A j \in Locs(inst) : st.dist[j + 1] = Nearest(inst, ToSetU(pre), j)
+
 \* C08, at the end: exactly the quota, all distinct (the final indicator / counter / flag are
 \* the ones StepOK sees after the last step; nothing else is logged at the end)
 FinalOK(inst, sol, fin) == Len(sol) = inst.K /\ NoDup(sol)
